@@ -10,7 +10,7 @@ CHECK = {
     "manifest": {
         "engine": "ENUM",
         "technique": "bounded-exhaustive enumeration against a reference model",
-        "text": "For every distinct expected response of the expanded embedded corpus and of a small grammar (unary/stream, 0-3 payloads, errors with/without message and 0-2 details, repeated / mixed-case / comma-containing headers and trailers, request info with headers, query params and timeout) the real testResults.assert is called with the identical result, with every documented leniency rewrite at every position (must pass) and with every single deviation at every position (must fail and the failure text must name the discrepancy). Rewrites and deviations are generated from the property text, the proto comments and docs/, not from results.go.",
+        "text": "For every distinct expected response of the expanded embedded corpus and of a small grammar (unary/stream, 0-3 payloads, errors with/without message and 0-2 details, repeated / mixed-case / comma-containing headers and trailers, request info with headers, query params and timeout) and of a sized family (payload data of a unary and of three full-duplex responses, error message, two error details, echoed request, each 255/256/257, 1023/1024/1025, 4095/4096/4097 and 65535/65536/65537 bytes long, so that byte-carrying fields straddle the usual buffer / truncation thresholds) the real testResults.assert is called with the identical result, with every documented leniency rewrite at every position (must pass) and with every single deviation at every position (must fail and the failure text must name the discrepancy; byte strings - payload data, detail values, echoed request values - are altered at the first, the middle and the last byte and have one byte dropped / appended at the end, error messages likewise by character). Rewrites and deviations are generated from the property text, the proto comments and docs/, not from results.go.",
         "note": "Trusts the protobuf runtime (Clone/Equal) and the corpus loader of the package (exercised by C02/C07) to provide expectations. Only single deviations; the leniency list of the statement is taken as closed; cases whose outcome the statement leaves open (extra value on an expected header, whitespace around values, presence of request_info itself) are not generated.",
         "design_ref": "DESIGN.md §2.2, §4 C03",
     },
